@@ -13,9 +13,14 @@ DIR = "Cdcl"
 C01_CLAUSES = ("Model.",)
 
 
-def owns(pid, why):
-    is1 = why.startswith(C01_CLAUSES)
-    return is1 if pid == "C01" else not is1
+def mine(pid, v):
+    """project a verdict onto the property: C01 owns the Model.* clause, C02 the verdict / step clauses (why2)"""
+    if v["ok"]:
+        return v
+    if pid == "C01":
+        return v if v["why"].startswith(C01_CLAUSES) else dict(v, ok=True, div=[])
+    w2 = v.get("why2", "")
+    return dict(v, why=w2) if w2 else dict(v, ok=True, div=[])
 
 
 def fix(results, cases):
@@ -40,7 +45,7 @@ def run(pid, tier, seed, replay=None):
         case = rp["trace"]["input"]
         trs = fix(run_tasks("sat", "run_sat", [case], timeout=30), [case])
         vs = ck.validate(DIR, "CdclTrace", trs, "replay")
-        ck.classify(trs, [v if (v["ok"] or owns(pid, v["why"])) else dict(v, ok=True) for v in vs])
+        ck.classify(trs, [mine(pid, v) for v in vs])
         return ck.finish()
 
     # ---- design level
@@ -83,8 +88,7 @@ def run(pid, tier, seed, replay=None):
                               "max_restarts": 10000, "luby_factor": lf})
     trs = fix(run_tasks("sat", "run_sat", cases, timeout=20 if tier == "quick" else 60), cases)
     vs = ck.validate(DIR, "CdclTrace", trs, "recorded solve_sat executions", timeout=3000)
-    mine = [v if (v["ok"] or owns(pid, v["why"])) else dict(v, ok=True, div=[]) for v in vs]
-    ck.classify(trs, mine, nontrivial=lambda t, v: t.get("internal_events", 0) >= 3)
+    ck.classify(trs, [mine(pid, v) for v in vs], nontrivial=lambda t, v: t.get("internal_events", 0) >= 3)
     for t in trs:
         for e in t["events"]:
             ck.actions[e["e"]] = ck.actions.get(e["e"], 0) + 1
